@@ -97,6 +97,18 @@ type caseResult struct {
 	Extra   map[string]string `json:"extra,omitempty"`
 }
 
+// workerStep, in a child process, tells the parent which step of the case in flight is
+// about to start ("STEP <i> <text>" on fd 3). A case made of several requests calls it
+// before each of them, so that when the process dies the parent knows on which request.
+// nil outside a child (in-process execution).
+var workerStep func(step string)
+
+func reportStep(step string) {
+	if f := workerStep; f != nil {
+		f(step)
+	}
+}
+
 // serveWorker runs the child side: it reads one JSON payload per line on stdin
 // ("<i> <payload>"), executes it and answers on fd 3. exec must not keep state between cases.
 func serveWorker(w *workerSpec, exec func(payload []byte) caseResult) int {
@@ -117,7 +129,12 @@ func serveWorker(w *workerSpec, exec func(payload []byte) caseResult) int {
 			continue
 		}
 		i, _ := strconv.Atoi(string(ln[:sp]))
+		workerStep = func(step string) {
+			fmt.Fprintf(bw, "STEP %d %s\n", i, strings.ReplaceAll(step, "\n", " "))
+			bw.Flush()
+		}
 		res := exec(ln[sp+1:])
+		workerStep = nil
 		res.I = i
 		b, err := json.Marshal(res)
 		if err != nil {
@@ -298,12 +315,21 @@ func runIsolated(id string, n int, payload func(i int) []byte, deadline time.Tim
 					}
 					var res *caseResult
 					hung := false
-					if alive {
+					lastStep := ""
+					timeout := time.After(perCase)
+					for alive && res == nil {
 						select {
 						case ln, ok := <-lines:
 							if !ok {
 								alive = false
 								break
+							}
+							if strings.HasPrefix(ln, "STEP ") {
+								// progress of the case in flight: "STEP <i> <text>"
+								if rest := ln[5:]; strings.IndexByte(rest, ' ') >= 0 {
+									lastStep = rest[strings.IndexByte(rest, ' ')+1:]
+								}
+								continue
 							}
 							if strings.HasPrefix(ln, "END ") {
 								rest := ln[4:]
@@ -315,8 +341,10 @@ func runIsolated(id string, n int, payload func(i int) []byte, deadline time.Tim
 								} else {
 									res = &r
 								}
+							} else {
+								alive = false // protocol violation: treated as a dead child
 							}
-						case <-time.After(perCase):
+						case <-timeout:
 							hung = true
 							alive = false
 						}
@@ -328,6 +356,12 @@ func runIsolated(id string, n int, payload func(i int) []byte, deadline time.Tim
 						if hung {
 							r.Stderr = fmt.Sprintf("no answer within %v (killed)", perCase)
 							r.Extra = map[string]string{"hung": "true"}
+						}
+						if lastStep != "" {
+							if r.Extra == nil {
+								r.Extra = map[string]string{}
+							}
+							r.Extra["step"] = lastStep
 						}
 						res = &r
 					}
